@@ -17,7 +17,7 @@ DT_KINDS = ["dt_" + u for u in DT_UNITS]
 DTZ_KINDS = ["dtz_" + u for u in DT_UNITS]
 TD_KINDS = ["td_us", "td_ns", "td_s", "td_ms"]
 TEXT_KINDS = ["str", "ostr", "bytes", "json"]
-CAT_KINDS = ["cat_str", "cat_int", "cat_float", "cat_str_ord", "cat_many"]
+CAT_KINDS = ["cat_str", "cat_int", "cat_float", "cat_str_ord", "cat_many", "cat_bool"]
 ALL_KINDS = (["bool"] + INT_KINDS + FLOAT_KINDS + TEXT_KINDS + DT_KINDS + DTZ_KINDS + TD_KINDS +
              CAT_KINDS + NULLABLE_KINDS)
 
@@ -223,6 +223,8 @@ def make_column(col, n, seed):
             base = ["pear", "apple", "Zebra", "", "héllo", "日本", "10", "9", "b", "a"]
             sh = col.get("lshift", 0)
             labels = [base[(i + sh) % len(base)] + ("" if i < len(base) else "_%d" % i) for i in range(ncat)]
+        elif kind == "cat_bool":
+            labels = [[False, True], [True, False], [True]][(seed + ncat) % 3]
         elif kind == "cat_int":
             labels = [int(x) for x in ((np.arange(ncat) + col.get("lshift", 0)) * 7919 % 1000 - 500)]
             labels = list(dict.fromkeys(labels))
